@@ -362,6 +362,20 @@ theorem c02_resync_sound (verify : Beacon → Bool) (s : Stack) (b old : Beacon)
   subst heq
   exact insert_same h.sorted.1 hold
 
+
+/-- every start re-puts the genesis beacon (`NewHandler`); on a store that already holds it this changes nothing, so a
+restart is exactly the rebuild of the wrappers and preserves the invariant. A failing write leaves everything as it was. -/
+theorem c02_restart_genesis (s : Stack) (seed : Bytes) (h : ChainInv s) (hg : lookup 0 s.base = some (genesis seed)) :
+    s.restartG seed = s.restart ∧ ChainInv (s.restartG seed) := by
+  have hb : Bolt.put s.base (genesis seed) = s.base := by
+    unfold Bolt.put
+    exact insert_same h.sorted.1 (by simpa [genesis] using hg)
+  have : s.restartG seed = s.restart := by unfold Stack.restartG Stack.restart; rw [hb]
+  exact ⟨this, this ▸ c02_restart s h⟩
+
+theorem c02_failed_write_no_effect (s : Stack) (b : Beacon) : (s.putFailing b).1 = s := by
+  unfold Stack.putFailing; split <;> rfl
+
 /-- regenerated lock fact: `appendStore.Put` and `schemeStore.Put` hold their mutex for the whole body, which is what
 makes a concurrent execution of the aggregation and sync paths a *sequence* of `Stack.put`s -/
 theorem tie_appendStore_locked : Gen.appendStorePutLocked = true ∧ Gen.schemeStorePutLocked = true := by decide
